@@ -56,6 +56,38 @@ def h_absent(P, S):
     return True
 
 
+def h_other_index(P, S):
+    """Search is a function of (index, token): a keyword searched on an index that contains it and then, through
+    the same scheme object and key, on an index that does not, gives an empty result the second time"""
+    scheme = P["scheme"]
+    PL.begin(P)
+    cfg = PL.small_config(scheme, P.get("over"))
+    kws = PL.keywords_for(cfg)
+    db_old = PL.make_db(P, S, scheme, cfg, [2, 1], keywords=kws)
+    w = list(db_old.keys())[0]
+    mod, s, K, e_old = PL.build(scheme, cfg, db_old)
+    db_new = {k: v for k, v in db_old.items() if k != w}
+    db_new[kws[2]] = list(db_old[w])
+    if scheme == "CGKO06.SSE2":
+        cfg["param_n"] = max(len({i for v in db_new.values() for i in v}), 1)
+    order = S.pick("order", 0, 1)
+    if order == 0:
+        e_new = s.EDBSetup(K, db_new)
+        first = PL.as_list(scheme, s.Search(e_old, s.TokenGen(K, w)))
+    else:
+        first = PL.as_list(scheme, s.Search(e_old, s.TokenGen(K, w)))
+        e_new = s.EDBSetup(K, db_new)
+    if not PL.same(scheme, first, db_old[w]):
+        return S.fail("old-index-wrong")
+    second = PL.as_list(scheme, s.Search(e_new, s.TokenGen(K, w)))
+    if len(second) != 0:
+        return S.fail("absent-keyword-answered-from-another-index")
+    again = PL.as_list(scheme, s.Search(e_old, s.TokenGen(K, w)))
+    if not PL.same(scheme, again, db_old[w]):
+        return S.fail("old-index-wrong-after-searching-the-new-one")
+    return True
+
+
 def obligations(tier, seed):
     obs = []
     klens = (1, 2, 3) if tier == "quick" else (1, 2, 3, 4)
@@ -71,6 +103,9 @@ def obligations(tier, seed):
                 obs.append(ob("c02.%s.%s.k%d" % (scheme, "-".join(map(str, lens)), L), "harness.c02", "h_absent",
                               {"scheme": scheme, "over": {}, "lens": lens, "klen": L, "seed": seed},
                               budget_s=300 if tier == "quick" else 900, per_path_s=30 if tier == "quick" else 200))
+    for scheme in PL.SCHEMES:
+        obs.append(ob("c02.other_index.%s" % scheme, "harness.c02", "h_other_index",
+                      {"scheme": scheme, "over": {}, "seed": seed}, budget_s=300))
     obs.append(twin("c02.twin", "harness.c02", "h_absent",
                     {"scheme": "CJJ14.PiBas", "over": {}, "lens": [1, 1, 1, 1], "klen": 2, "twin": True}))
     return obs
